@@ -691,6 +691,18 @@ func (e *SpecEnv) callExpr(n *ECall, cur, old *State) Val {
 				ref = v.L[1]
 			}
 			return scalar(intT, Select(vc.get(cur, "Pos"), ref))
+		case "spdxdoc":
+			// spdxdoc(r): the document spdxjson.Read decodes from stream r (ghost; trusted Read contract)
+			v := e.eval(n.Args[0], cur, old)
+			ref := v.L[0]
+			if len(v.L) == 2 {
+				ref = v.L[1]
+			}
+			t := e.resolveType("v2_3.Document")
+			if t == nil {
+				return e.fail("spdxdoc: type v2_3.Document not found")
+			}
+			return scalar(types.NewPointer(t), mk(SInt, vc.declareFun("spdx.docOf", []*Sort{SInt}, SInt), ref))
 		case "seekfailed", "jsonok", "jsonmember":
 			v := e.eval(n.Args[0], cur, old)
 			ref := v.L[0]
